@@ -138,7 +138,7 @@ Example applied_example :
 Proof.
   split; [|vm_compute; auto]. unfold snap_ahead_tick.
   assert (E : need_load (node_of 1 g2b) = false) by (vm_compute; reflexivity).
-  rewrite E. cbn [andb]. discriminate.
+  rewrite E. cbn [andb]. intros H. discriminate H.
 Qed.
 
 (* C04_log_wf: the nodes of the final state are well formed, their logs non-empty, the messages
@@ -150,8 +150,9 @@ Fixpoint consecb (l : list entry) : bool :=
   end.
 Lemma consecb_ok l : consecb l = true -> consec l.
 Proof.
-  induction l as [|e r IH]; [auto|]. cbn [consecb consec]. intros H. apply andb_prop in H. destruct H as [H1 H2].
-  split; [|auto]. destruct r; [exact I|now apply N.eqb_eq].
+  induction l as [|e r IH]; [intros _; exact I|]. intros H. destruct r as [|e' r']; [cbn; auto|].
+  change (((eidx e' =? eidx e + 1) && consecb (e' :: r')) = true) in H.
+  apply andb_prop in H. destruct H as [H1 H2]. split; [now apply N.eqb_eq|auto].
 Qed.
 Fixpoint ssortedb (l : list N) : bool :=
   match l with
@@ -160,8 +161,9 @@ Fixpoint ssortedb (l : list N) : bool :=
   end.
 Lemma ssortedb_ok l : ssortedb l = true -> ssorted l.
 Proof.
-  induction l as [|e r IH]; [auto|]. cbn [ssortedb ssorted]. intros H. apply andb_prop in H. destruct H as [H1 H2].
-  split; [|auto]. destruct r; [exact I|now apply N.ltb_lt].
+  induction l as [|e r IH]; [intros _; exact I|]. intros H. destruct r as [|e' r']; [cbn; auto|].
+  change (((e <? e') && ssortedb (e' :: r')) = true) in H.
+  apply andb_prop in H. destruct H as [H1 H2]. split; [now apply N.ltb_lt|auto].
 Qed.
 
 Example log_wf_example :
